@@ -22,7 +22,8 @@ for f in files:
     else: o['Replace']['/repo/'+f]=''   # file deleted by the patch
 json.dump(o,open(W+'/overlay.json','w'),indent=1)
 PY
-rsync -a --exclude bin --exclude .git --exclude replays --exclude seeded --exclude notes /verif/ "$W/verif/"
+# SEED_VERIF_SRC: take the harness from a scratch copy of /verif instead (development of a check in a copy)
+rsync -a --exclude bin --exclude .git --exclude replays --exclude seeded --exclude notes "${SEED_VERIF_SRC:-/verif}/" "$W/verif/"
 for id in "$@"; do
   out=$(VERIF_DIR="$W/verif" VCHECK_OVERLAY="$W/overlay.json" VCHECK_SRC_V2="$W/tree/v2" "$W/verif/vcheck" "$id" --tier "${SEED_TIER:-quick}" 2>&1); rc=$?
   sigs=$(echo "$out" | grep -E "^\s+signature=" | sed 's/^\s*signature=//' | sort -u | head -6 | tr '\n' ' ')
